@@ -302,7 +302,7 @@ type httpFreshness struct {
 	expiresIn    int  // seconds after Date; 0 = header absent; negative = in the past
 	hasExpires   bool
 	expiresRaw   string // when set: sent verbatim (not a valid HTTP date)
-	dateSkew     int    // the Date header lies this many seconds in the past
+	dateSkew     int    // the Date header lies this many seconds in the past (negative: ahead of heimdall's clock)
 	lastModified bool
 	splitCC      bool
 	age          int // Age header, -1 absent
@@ -337,7 +337,8 @@ func drawFreshness(s *simcore.Source) httpFreshness {
 	// the Age header is not part of the property's quantifier (Cache-Control/Expires/Date) and is not generated.
 	// Date: the answer may have been generated a while ago (a CDN or a caching proxy in front of the endpoint): its
 	// apparent age (RFC 7234 4.2.3) counts against the freshness lifetime
-	f.dateSkew = []int{0, 0, 0, 10, 3600}[s.Draw(5, "date-skew")]
+	// ... or the clock of the endpoint runs ahead: an apparent age is never negative
+	f.dateSkew = []int{0, 0, 0, 10, 3600, -600}[s.Draw(6, "date-skew")]
 	// Last-Modified invites heuristic freshness, which heimdall documents not to calculate
 	f.lastModified = s.Draw(3, "last-modified") == 2
 	// the directives may be spread over several Cache-Control lines (a proxy adding its own)
@@ -359,7 +360,7 @@ func drawFreshness(s *simcore.Source) httpFreshness {
 	if f.explicit && f.age > 0 {
 		f.lifetimeS -= f.age
 	}
-	if f.explicit {
+	if f.explicit && f.dateSkew > 0 {
 		f.lifetimeS -= f.dateSkew
 	}
 	return f
@@ -451,7 +452,11 @@ mechanisms:
 		step = "    - authenticator: anon\n    - contextualizer: remote" + ttls.stepConfig("cache_ttl") + "\n    - finalizer: echo"
 	}
 	r.Logf("scenario=%s cache=%s cache_ttl=%s http_cache=%v default_ttl=%s %v", kind, cacheKind, ttls, httpCache, defaultTTL, fresh)
-	e, err := newEnv(r, cacheKind, mech, fmt.Sprintf(c10Rules, step))
+	// r1 may override the ttl, r2 (same mechanism, same cache) never does: what one rule stored must not outlive the
+	// ttl in force for the rule that reads it
+	step2 := strings.Replace(step, ttls.stepConfig("cache_ttl"), "", 1)
+	rules := fmt.Sprintf(c10Rules, step) + "- id: r2\n  match:\n    routes:\n      - path: /res2/:id\n  execute:\n" + step2 + "\n"
+	e, err := newEnv(r, cacheKind, mech, rules)
 	if err != nil {
 		r.Fail("infra", "build", "%v", err)
 		return
@@ -478,10 +483,15 @@ mechanisms:
 	times := instants(s, 3+s.Draw(10, "nreq"), bounds, 700)
 	lastContact := time.Duration(-1)
 	boundaryHit := false
+	ruleTTL := ttl
 	for _, at := range times {
 		bubble.At(e.epoch, at)
-		res := e.do("GET", "http://heimdall.local/res/1", nil)
-		r.Logf("req %v", res)
+		path, ttl := "/res/1", ruleTTL
+		if ttls.rule.set && s.Draw(3, "via-second-rule") == 2 {
+			path, ttl = "/res2/1", ttls.proto
+		}
+		res := e.do("GET", "http://heimdall.local"+path, nil)
+		r.Logf("req %s %v", path, res)
 		contacted := res.calls["pdp"] > 0
 		if contacted && res.allowed {
 			lastContact = res.at
